@@ -6,18 +6,7 @@ cd "$(dirname "$0")"
 export CARGO_NET_OFFLINE=true
 REPO="${VERIF_REPO:-/repo}"
 mkdir -p .work evidence replays
-python3 tools/rs2lean.py "$REPO" lean/IndicatifModel/Generated/Funs.lean
-for p in tools/gen_*.py; do
-  case "$p" in
-    tools/gen_keys.py) python3 "$p" "$REPO" lean/IndicatifModel/Generated/Keys.lean ;;
-    tools/gen_atomics.py) python3 "$p" "$REPO" lean/IndicatifModel/Generated/Atomics.lean ;;
-    tools/gen_unwraps.py) python3 "$p" "$REPO" lean/IndicatifModel/Generated/Unwraps.lean ;;
-    tools/gen_template.py) python3 "$p" "$REPO" lean/IndicatifModel/Generated/TemplateArms.lean ;;
-    tools/gen_overrides.py) python3 "$p" "$REPO" lean/IndicatifModel/Generated/Overrides.lean ;;
-    tools/gen_termlike.py) python3 "$p" "$REPO" lean/IndicatifModel/Generated/TermForward.lean ;;
-    tools/gen_finish.py) python3 "$p" "$REPO" lean/IndicatifModel/Generated/FinishArms.lean ;;
-  esac
-done
+VERIF_REPO="$REPO" tools/regen.sh
 ( cd lean
   mods=$(find IndicatifModel -name '*.lean' | sed 's#/#.#g; s#\.lean$##' | tr '\n' ' ')
   lake build $mods driver )
